@@ -1,39 +1,79 @@
 (* C09 exit-path placement: soundness of the certificate checker that the check runs (vm_compute) on the
    exported CFG of every function of every compiled victim contract. *)
 From Coq Require Import List Bool.
-From Verif Require Import C09.ExitCheck.
+From Coq Require Import ZArith String.
+From Verif Require Import C09.Lock C09.LockTpl C09.ExitCheck C09.RichCfg.
 Import ListNotations.
 
 (* If the checker accepts (g, lab) then along every CFG path from the function entry to a block ending in
    return/stop (TExit) or an internal-function return (TRet): the abstract lock state goes free -> free,
    i.e. no lock store happens while held and every lock store is followed by a later unlock store. *)
 Theorem exits_pass_unlock : forall g lab, check g lab = true ->
-  forall rest, is_path g 0 rest ->
-  (last_term g (0 :: rest) = Some TExit \/ last_term g (0 :: rest) = Some TRet) ->
-  trs false (path_ins g (0 :: rest)) = Some false /\
-  forall pre post, path_ins g (0 :: rest) = pre ++ ILock :: post -> In IUnlock post.
+  forall rest, is_path g 0%nat rest ->
+  (last_term g (0%nat :: rest) = Some TExit \/ last_term g (0%nat :: rest) = Some TRet) ->
+  trs false (path_ins g (0%nat :: rest)) = Some false /\
+  forall pre post, path_ins g (0%nat :: rest) = (pre ++ ILock :: post)%list -> In IUnlock post.
 Proof. exact exits_pass_unlock_thm. Qed.
 Print Assumptions exits_pass_unlock.
 
 (* non-vacuity: a function with a branch and a loop, unlock on both exits -> accepted; the same with the
    unlock missing on the early return -> rejected *)
 Definition ex_good : cfg :=
-  [mkB [IOther; ILock] (TJump [1; 2]);
+  [mkB [IOther; ILock] (TJump [1; 2]%nat);
    mkB [IUnlock] TExit;
-   mkB [IOther] (TJump [3; 4]);
-   mkB [] (TJump [2; 5]);
+   mkB [IOther] (TJump [3; 4]%nat);
+   mkB [] (TJump [2; 5]%nat);
    mkB [IUnlock] TExit;
    mkB [] TAbort].
 Definition ex_lab := [(true, false); (false, true); (false, true); (false, true); (false, true); (true, true)].
 Definition ex_bad : cfg :=
-  [mkB [IOther; ILock] (TJump [1; 2]);
+  [mkB [IOther; ILock] (TJump [1; 2]%nat);
    mkB [] TExit;
-   mkB [IOther] (TJump [3; 4]);
-   mkB [] (TJump [2; 5]);
+   mkB [IOther] (TJump [3; 4]%nat);
+   mkB [] (TJump [2; 5]%nat);
    mkB [IUnlock] TExit;
    mkB [] TAbort].
 Example exit_check_examples : check ex_good ex_lab = true /\ check ex_bad ex_lab = false /\
-  is_path ex_good 0 [2; 3; 2; 4] /\ last_term ex_good [0; 2; 3; 2; 4] = Some TExit.
+  is_path ex_good 0%nat [2; 3; 2; 4]%nat /\ last_term ex_good [0; 2; 3; 2; 4]%nat = Some TExit.
 Proof.
   repeat split; try reflexivity; simpl; repeat (try eexists; try split; try reflexivity; simpl; auto).
 Qed.
+
+(* The checker that is actually run takes the *printed IR* of a function: operand resolution through assign
+   chains, classification of every store against the lock slot and the lock parameters, call-graph closure
+   ("does the callee touch the lock") and CFG construction all happen inside Coq. *)
+Theorem printed_function_exits_pass_unlock : forall L p f lab, check_fn L p f lab = true ->
+  exists g, cfg_of L p f = Some g /\
+  forall rest, is_path g 0%nat rest ->
+  (last_term g (0%nat :: rest) = Some TExit \/ last_term g (0%nat :: rest) = Some TRet) ->
+  trs false (path_ins g (0%nat :: rest)) = Some false /\
+  forall pre post, path_ins g (0%nat :: rest) = (pre ++ ILock :: post)%list -> In IUnlock post.
+Proof. exact check_fn_sound. Qed.
+Print Assumptions printed_function_exits_pass_unlock.
+
+(* ... and along every accepted exit path the lock cell ends exactly as Lock.leave leaves it: `final` when the
+   path took the lock (entry kind Nonview), untouched otherwise (Unprot / View): the body shape that
+   no_reentry / lock_released assume for every normal exit. *)
+Theorem accepted_exit_matches_leave : forall P L p f lab, check_fn L p f lab = true ->
+  exists g, cfg_of L p f = Some g /\
+  forall rest v, is_path g 0%nat rest ->
+  (last_term g (0%nat :: rest) = Some TExit \/ last_term g (0%nat :: rest) = Some TRet) ->
+  let t := path_ins g (0%nat :: rest) in
+  cell_effect P t v = if existsb lockish t then p_final P else v.
+Proof. exact RichCfg.accepted_exit_matches_leave. Qed.
+Print Assumptions accepted_exit_matches_leave.
+
+(* non-vacuity: a printed venom-style function (lock through assign chains, unlock on both exits) is accepted;
+   dropping one unlock, or storing an unexpected value to the lock slot, is rejected *)
+Open Scope string_scope.
+Definition ex_fn (second_unlock : list rinstr) (v : Z) : rfunction :=
+  [[mkI (Some 1%N) "assign" [ALit 0%Z]; mkI (Some 2%N) "assign" [ALit v]; mkI (Some 3%N) "assign" [AVar 2%N];
+    mkI None "tstore" [AVar 3%N; AVar 1%N]; mkI (Some 4%N) "calldatasize" []; mkI None "jnz" [AVar 4%N; ALab 1%N; ALab 2%N]];
+   [mkI None "tstore" [ALit 0%Z; ALit 0%Z]; mkI None "stop" []];
+   (second_unlock ++ [mkI None "return" [ALit 0%Z; ALit 0%Z]])%list].
+Definition ex_labs : list lset := [(true, false); (false, true); (false, true)].
+Example rich_examples :
+  check_fn (lockcfg_of true 0) [] (ex_fn [mkI None "tstore" [ALit 0%Z; ALit 0%Z]] 1) ex_labs = true /\
+  check_fn (lockcfg_of true 0) [] (ex_fn [] 1) ex_labs = false /\
+  check_fn (lockcfg_of true 0) [] (ex_fn [mkI None "tstore" [ALit 0%Z; ALit 0%Z]] 5) ex_labs = false.
+Proof. vm_compute. repeat split; reflexivity. Qed.
